@@ -20,6 +20,7 @@ import (
 	"sort"
 	"strconv"
 	"strings"
+	"time"
 
 	"github.com/hneemann/parser2/funcGen"
 	"github.com/hneemann/parser2/listMap"
@@ -918,12 +919,16 @@ var c09Keys = []string{"a", "b", "c", "d", "k", "l", "x"}
 func (r *c09Run) next(rng *rand.Rand) string {
 	isList := func(h *c09Handle) bool { return !h.isMap && !strings.Contains(h.firstCanon, "!") }
 	intList := func(h *c09Handle) bool { return isList(h) && h.allInt && h.n <= 14 }
-	smallList := func(h *c09Handle) bool { return isList(h) && h.n <= 14 && h.depth <= 5 }
+	smallList := func(h *c09Handle) bool { return isList(h) && h.n <= 14 && h.depth <= 5 && len(h.firstCanon) <= 1500 }
 	isMap := func(h *c09Handle) bool { return h.isMap }
 	intMap := func(h *c09Handle) bool {
 		return h.isMap && !strings.ContainsAny(h.firstCanon, "[\"") && strings.Count(h.firstCanon, "{") == 1
 	}
-	any := func(h *c09Handle) bool { return h.depth <= 5 && !strings.Contains(h.firstCanon, "!") }
+	// values that are stored in other values stay small: the cost of observing every handle after
+	// every step grows with the product of the nesting
+	any := func(h *c09Handle) bool {
+		return h.depth <= 4 && len(h.firstCanon) <= 200 && !strings.Contains(h.firstCanon, "!")
+	}
 	val := func() string { // an element to store: mostly ints, sometimes an existing handle
 		if rng.Intn(5) == 0 {
 			if k := r.pick(rng, any); k >= 0 {
@@ -1520,7 +1525,13 @@ func runC09(c *Ctx) {
 		c.Count("targeted-search")
 	}
 
+	deadline := time.Duration(c.Pick(45, 480)) * time.Second
 	for i := 0; i < n; i++ {
+		if i%500 == 0 && time.Since(c.start) > deadline {
+			// safety net for an overloaded machine: the tier's wall-clock budget is respected
+			c.extra["budget_cut_after_histories"] = i
+			break
+		}
 		r := c09NewRun(c)
 		L := 3 + c.rng.Intn(maxLen-2)
 		if targeted && i%2 == 0 {
@@ -1539,6 +1550,14 @@ func runC09(c *Ctx) {
 				c.Count("generator:rejected-op")
 			}
 			if len(r.handles) > 40 {
+				break
+			}
+			total := 0
+			for _, h := range r.handles {
+				total += len(h.firstCanon)
+			}
+			if total > 30000 {
+				c.Count("generator:history-cut(observation-size)")
 				break
 			}
 		}
